@@ -13,6 +13,7 @@ ID = "C05"
 LEVEL = "exploration"
 QUICK_SHARDS = 4
 MIN_NONTRIVIAL = 50
+FUZZ_RUNS = 240000     # thorough tier: atheris executions (all children)
 RULE = (
     "Pairs (g1, g2) of same-class graphs, n <= 8, from: renamed copies, "
     "renamed single-feature mutants, independent draws over a tiny universe, "
@@ -317,7 +318,7 @@ def run(ctx):
                   "valid:0" if nvalid == 0 else "valid:1" if nvalid == 1
                   else "valid:2-5" if nvalid <= 5 else "valid:6+"])
 
-    ctx.hyp("c05", S.tapes(1200).map(gen), check, ctx.scale(16000, 500000),
+    ctx.hyp("c05", S.mapped(1200, gen), check, ctx.scale(16000, 500000),
             shrinker=shrink)
 
     # topological symmetry number
@@ -336,7 +337,7 @@ def run(ctx):
         for cand in rc.shrink_candidates(case["a"]):
             yield {**case, "a": cand}
 
-    ctx.hyp("c05-symnum", S.tapes(900).map(gen_s), check_s,
+    ctx.hyp("c05-symnum", S.mapped(900, gen_s), check_s,
             ctx.scale(3000, 80000), shrinker=shrink_s)
 
     # large symmetric graphs
@@ -358,5 +359,5 @@ def run(ctx):
         ctx.note(case, True, ["src:large", f"large:{case['name']}",
                               f"order:{order}"])
 
-    ctx.hyp("c05-large", S.tapes(400).map(gen_l), check_l,
+    ctx.hyp("c05-large", S.mapped(400, gen_l), check_l,
             ctx.scale(160, 3000), ddmin=False)
